@@ -369,6 +369,10 @@ def rule_r2(facts, rep, rid="C09-R2"):
         rep.saw_fn(f)
         c = ctx(f)
         rem = _struct_lits(f.body, "action::Remove")
+        # how the canonical rendering names the target and the section: `Some(target_id).filter(..).and_then(|target_id| ..)` rebinds the target as the outermost closure
+        # parameter (c0, the section id is c1); an early `return None` keeps the parameter (P1, the section id is c0)
+        TGT = "c0" if "Some(P1)" in _cs(f, f.body) else "P1"
+        SEC = "c1" if TGT == "c0" else "c0"
         # the inlined key = argument of the `collect` whose tree is inserted
         key = f.def_ + "|removed-key-is-inlined-key"
         inl_c = None
@@ -385,7 +389,7 @@ def rule_r2(facts, rep, rid="C09-R2"):
         if len(rem) == 1 and inl_c:
             a = _cs(f, _field(rem[0], "key"))
             a = a[:-8] if a.endswith(".clone()") else a
-            if a == inl_c and "reference_key(c0)" in a:
+            if a == inl_c and ("reference_key(%s)" % TGT) in a:
                 rep.ok(rid, key, "Remove{key} and the inlined content use the same reference_key(target)", loc(f, rem[0]))
             else:
                 rep.violation(rid, key, "the deleted note (`%s`) is not the note whose content was inlined (`%s`): content is deleted without being inlined" % (a[:70], inl_c[:70]), loc(f, rem[0]))
@@ -396,10 +400,10 @@ def rule_r2(facts, rep, rid="C09-R2"):
             ok1 = False
             for x in [y for y in fb.walk(f.body) if y.get("k") == "mcall" and y["name"] == "append_pre_header"]:
                 r = x["recv"]
-                if (r.get("k") == "mcall" and r["name"] == "remove_node" and _cs(f, r["args"][0]) == "c0" and r["recv"].get("k") == "mcall" and r["recv"]["name"] == "collect"
-                        and _cs(f, r["recv"]["args"][0]) == "&P2.key_of(P1)" and _cs(f, x["args"][0]) == "c1"):
+                if (r.get("k") == "mcall" and r["name"] == "remove_node" and _cs(f, r["args"][0]) == TGT and r["recv"].get("k") == "mcall" and r["recv"]["name"] == "collect"
+                        and _cs(f, r["recv"]["args"][0]) == "&P2.key_of(P1)" and _cs(f, x["args"][0]) == SEC):
                     sel = [p_ for p_ in c.parents(x) if p_.get("k") == "mcall" and p_["name"] == "map"]
-                    if sel and sel[0]["recv"].get("k") == "mcall" and sel[0]["recv"]["name"] == "get_surrounding_section_id" and _cs(f, sel[0]["recv"]["args"][0]) == "c0":
+                    if sel and sel[0]["recv"].get("k") == "mcall" and sel[0]["recv"]["name"] == "get_surrounding_section_id" and _cs(f, sel[0]["recv"]["args"][0]) == TGT:
                         ok1 = True
             if ok1:
                 rep.ok(rid, key, "collect(key).remove_node(target).append_pre_header(<surrounding section of target>, collect(inline_key))", f.loc)
@@ -412,7 +416,7 @@ def rule_r2(facts, rep, rid="C09-R2"):
                 if "Quote" in fb.show(_field(s_, "node")) and re.match(r"^P2\.collect\(&.*\)\.children(\.clone\(\))?$", _cs(f, _field(s_, "children"))):
                     okq = True
                     qc = _cs(f, s_)
-            ok2 = any(x.get("k") == "mcall" and x["name"] == "replace" and (fb.callee(x) or "").endswith("Tree::replace") and _cs(f, x["args"][0]) == "c0"
+            ok2 = any(x.get("k") == "mcall" and x["name"] == "replace" and (fb.callee(x) or "").endswith("Tree::replace") and _cs(f, x["args"][0]) == TGT
                       and _cs(f, x["args"][1]) == "&" + (qc or "?") and x["recv"].get("k") == "mcall" and x["recv"]["name"] == "collect" and _cs(f, x["recv"]["args"][0]) == "&P2.key_of(P1)"
                       for x in fb.walk(f.body))
             if okq and ok2:
